@@ -58,6 +58,31 @@ def trace_of(rec, lazy=0):
 RESP = {"rc": 0, "tc": False, "nan": 1, "ttls": [300], "opt": False}
 
 
+def lazy_signature(rec, info):
+    e = info.get("event") or {}
+    if e.get("ev") == "Exec" and e["o"]["res"] == "hit":
+        o = e["o"]
+        if str(o["owner"]["n"]).startswith("?"):
+            return "hit-for-different-question:refresh-fetched-another-name:%s" % rec["tag"]
+        d = differs(e["q"], o["owner"])
+        if d:
+            return "hit-for-different-question:differs-in=%s:%s" % ("+".join(d), rec["tag"])
+    return "lazy-trace-rejected:%s:%s" % (e.get("ev"), rec["tag"])
+
+
+def judge_lazy(ctx, recs, job):
+    acc, rej = vlib.validate_traces(ctx, "CachePlugin_Trace", "CachePlugin_Trace.cfg", [r["events"] for r in recs], label="C04 lazy")
+    for idx, info in rej:
+        r = recs[idx]
+        j = {"mode": "c04", "c04": {"behaviours": [], "maps": [], "lazy_beh": [job["c04"]["lazy_beh"][r["beh"]]],
+                                    "lazy_map": job["c04"]["lazy_map"], "lazy_rounds": 3}}
+        ctx.violation(lazy_signature(r, info), "real run of [rewrite-wrapper,] cache(lazy), next (%s, GOMAXPROCS(1)=%s) is not a behaviour of "
+                      "CachePlugin.tla satisfying NoSharing: rejected at event %s: %s" % (
+                          r["tag"], r.get("extra", {}).get("procs1"), info.get("line_in_trace"), json.dumps(info.get("event"))[:400]),
+                      {"lazy_job": j, "events": r["events"][:14]})
+    return acc, rej
+
+
 def judge(ctx, recs, what):
     """leg C on detailed records; every rejected trace is a deviation of the real code."""
     traces = [trace_of(r) for r in recs]
@@ -76,8 +101,14 @@ def judge(ctx, recs, what):
 
 def replay(ctx):
     d = json.load(open(ctx.replay))["replay"]
-    rec = d["rec"]
     binary = vlib.go_build(ctx, "drv_cache")
+    if "lazy_job" in d:
+        out, _ = vlib.run_driver(ctx, binary, stdin_obj=d["lazy_job"])
+        tr = [r for r in out if r["kind"] == "trace" and not r["slow"]]
+        ctx.cov["evaluations"] = len(tr)
+        judge_lazy(ctx, tr, d["lazy_job"])
+        return
+    rec = d["rec"]
     steps = [{"a": "Exec", "i": 1, "q": s["q"], "r": RESP, "o": {"res": "na", "owner": s["q"], "id": 0}} for s in rec["steps"]]
     m = rec.get("mapv") or d.get("map")
     job = {"mode": "c04", "c04": {"behaviours": [{"lazy": 0, "steps": steps}], "maps": [m], "detail": True}}
@@ -120,7 +151,16 @@ def run(ctx):
         if res["violated"] != "NoSharing":
             raise vlib.Infra("non-vacuity: key without %s should violate NoSharing, got %r" % (f, res["violated"]))
         nv.append(f)
-    ctx.cov["non_vacuity"] = "NoSharing is violated by TLC when any one of %s is dropped from KeyFields" % nv
+    LZ = dict(Names='{"n1", "n2"}', Types='{"t1"}', Classes='{"c1"}', Flags="{0}", Resps="<- RespsC04L", LazyTTLs="{50}", Ticks="{10}",
+              MaxNow="30", OpKinds='{"exec", "tick", "refresh"}')
+    vlib.tlc_mc(ctx, SPEC, "c04_lazy.cfg", cfg_text=cl.cfg(MaxOps="6" if T else "5", **LZ),
+                label="C04 design: lazy cache, entries written by background refreshes")
+    res = vlib.run_tlc(ctx, SPEC, "nv_refresh.cfg", cfg_text=cl.cfg(inv="NoSharing", MaxOps="5", **dict(LZ, RefreshOwner='"other"')),
+                       expect_violation=True, workers=2)
+    if res["violated"] != "NoSharing":
+        raise vlib.Infra("non-vacuity: a refresh fetching another question should violate NoSharing, got %r" % res["violated"])
+    ctx.cov["non_vacuity"] = ("NoSharing is violated by TLC when any one of %s is dropped from KeyFields, and when a background refresh "
+                              "stores the answer to another question under the looked-up key" % nv)
 
     # ---- leg B generators
     g2 = vlib.tlc_behaviours(ctx, SPEC, "gen2.cfg", cfg_text=cl.cfg(gen=True, MaxOps="2"), label="C04 gen: all ordered pairs")
@@ -168,9 +208,28 @@ def run(ctx):
         for rev in (False, True):
             mass.append({"dim": dim, "beh": pick("abab", dim), "base": base, "reverse": rev})
 
+    # lazy composition: [rewrite-and-restore plugin,] cache(lazy), next
+    gl = vlib.tlc_behaviours(ctx, SPEC, "gen_lazy.cfg", cfg_text=cl.cfg(gen=True, MaxOps="6", **LZ), label="C04 gen: lazy refresh (exhaustive)")
+
+    def lazy_ok(b):
+        st = b["steps"]
+        f = [i for i, s in enumerate(st) if s["a"] == "Exec" and s["o"]["res"] == "stale"]
+        if not f:
+            return False
+        rest = [s["a"] for s in st[f[0]:]]
+        return "RefreshEnd" in rest and "Tick" not in rest[:rest.index("RefreshEnd") + 1]
+    gl = [b for b in gl if lazy_ok(b)]
+    rng.shuffle(gl)
+    gl = gl[:150 if T else 30]
+    if len(gl) < 20:
+        raise vlib.Infra("lazy generator produced only %d usable behaviours" % len(gl))
+
     binary = vlib.go_build(ctx, "drv_cache")
-    job = {"mode": "c04", "c04": {"behaviours": behs, "maps": maps, "pairs": pairs, "detail": False, "sweeps": sweeps, "mass": mass}}
+    job = {"mode": "c04", "c04": {"behaviours": behs, "maps": maps, "pairs": pairs, "detail": False, "sweeps": sweeps, "mass": mass,
+                                  "lazy_beh": gl, "lazy_map": cl.plain_map(), "lazy_rounds": 2 if T else 1}}
     recs, _ = vlib.run_driver(ctx, binary, stdin_obj=job, timeout=1500)
+    lazy_tr = [r for r in recs if r["kind"] == "trace" and not r["slow"]]
+    recs = [r for r in recs if r["kind"] != "trace"]
     summ = [r for r in recs if r["kind"] == "summary"]
     if len(summ) != 1:
         raise vlib.Infra("driver returned no summary")
@@ -195,6 +254,13 @@ def run(ctx):
         if r["kind"] == "replay":
             r["mapv"] = maps[r["map"]]
     acc, rej = judge(ctx, det + worst, "C04 replays")
+    acc2, rej2 = judge_lazy(ctx, lazy_tr, job)
+    rej = rej + rej2
+    if not rej2:
+        nbg = sum(r.get("extra", {}).get("background", 0) for r in lazy_tr)
+        if len(lazy_tr) < len(gl) or nbg < len(lazy_tr) // 2:
+            raise vlib.Infra("dead lazy leg: %d traces for %d behaviours, %d background refreshes" % (len(lazy_tr), len(gl), nbg))
+        ctx.cov["lazy_compositions"] = len(lazy_tr)
     if not rej:
         def corrupt(t):
             for e in t:
